@@ -225,6 +225,7 @@ func c19Run(c *Ctx) {
 		}
 		c.Do("reports", cs)
 	}
+	c19RunHist(c)
 }
 
 // ---------------------------------------------------------------- building and observing
@@ -502,6 +503,10 @@ func c19FlatWire(f map[string]dom.Leaf) []any {
 // ---------------------------------------------------------------- evaluation
 
 func c19Eval(c *Ctx, kind string, raw []byte) {
+	if kind == "history" {
+		c19EvalHist(c, raw)
+		return
+	}
 	if kind != "reports" {
 		return
 	}
